@@ -49,6 +49,11 @@ def run(ctx):
         marks = [{"kind": "init"}, {"kind": "mktree", "tree": tree}, {"kind": "snap"}, {"kind": "walk"},
                  {"kind": "backup", "plan": None, "tree": tree, "snap_at": 2}, {"kind": "arch"}]
         cases.append({"id": f"m{t}", "steps": steps, "marks": marks, "mutating": True})
+    # a version with more index hunks than fit one index sub-directory (10000): the numbering carries on into i/00001/
+    big = {"k": "d", "mode": 0o755, "mtime": 10**18, "c": {f"e{i:05d}": {"k": "f", "data": "", "mode": 0o644, "mtime": 10**18} for i in range(10040)}}
+    steps = [{"op": "init"}, {"op": "mktree", "path": "src", "tree": big}, {"op": "backup", "opts": {"meph": 1, "mbs": 64, "sfc": 0}}, {"op": "arch"}]
+    marks = [{"kind": "init"}, {"kind": "mktree", "tree": big}, {"kind": "backup", "plan": None, "tree": big, "snap_at": 1}, {"kind": "arch"}]
+    cases.append({"id": "big", "steps": steps, "marks": marks, "oracle_only": True})
     res = ctx.cvh_run(cases, timeout=3000)
     hs = []
     for c in cases:
@@ -85,6 +90,9 @@ def run(ctx):
         if not ok:
             continue
         ctx.nontrivial(json.dumps([m["kind"] + str(m.get("plan") or m.get("ids") or "") + json.dumps(s.get("opts", "")) for s, m in zip(c["steps"], c["marks"]) if m["kind"] in ("backup", "delete")]))
+        if c.get("oracle_only"):
+            ctx.dist("version_with_more_than_10000_hunks")
+            continue
         names = l4.Names()
         scen.collect_names(names, c["steps"], r)
         h = l4.History(c["id"], names)
